@@ -30,10 +30,13 @@ Definition root_id : fid := 0%N.
 Definition kind_eqb (a b : kind) : bool :=
   match a, b with KFile, KFile | KDir, KDir | KLink, KLink => true | _, _ => false end.
 
+(* only files have an executable bit *)
+Definition eff_exec (e : entry) : bool := match e_kind e with KFile => e_exec e | _ => false end.
+
 Definition entry_eqb (a b : entry) : bool :=
   N.eqb (e_parent a) (e_parent b) && N.eqb (e_name a) (e_name b) &&
   kind_eqb (e_kind a) (e_kind b) && N.eqb (e_content a) (e_content b) &&
-  Bool.eqb (e_exec a) (e_exec b) && Bool.eqb (e_missing a) (e_missing b).
+  Bool.eqb (eff_exec a) (eff_exec b) && Bool.eqb (e_missing a) (e_missing b).
 
 Fixpoint lookup (t : tree) (i : fid) : option entry :=
   match t with
@@ -141,7 +144,9 @@ Definition valid_tree (t : tree) : bool :=
   nodup_paths (map (fun p => tpath t (fst p)) t).
 
 (* a revision tree has no missing entries; non-files carry no exec bit *)
-Definition rev_entry_ok (p : fid * entry) : bool := negb (e_missing (snd p)).
+Definition normal_entry (e : entry) : bool := negb (e_missing e) && Bool.eqb (e_exec e) (eff_exec e).
+Definition rev_entry_ok (p : fid * entry) : bool := normal_entry (snd p).
+Definition rev_normal (t : tree) : bool := forallb rev_entry_ok t.
 Definition valid_rev_tree (t : tree) : bool := valid_tree t && forallb rev_entry_ok t.
 
 (* ---------------------------------------------------------------- lemmas *)
